@@ -3,6 +3,9 @@
 package db
 
 import (
+	"encoding/hex"
+	"fmt"
+
 	"github.com/syndtr/goleveldb/leveldb"
 
 	"github.com/zenon-network/go-zenon/common/types"
@@ -39,6 +42,36 @@ func VerifCachedViews(m Manager) []types.HashHeight {
 	}
 	for _, k := range l.l2Cache.Keys() {
 		out = append(out, k.(types.HashHeight))
+	}
+	return out
+}
+
+// VerifCacheDump renders every cached rollback overlay of a leveldb-backed Manager (view identifier, the frontier it
+// was built for, and its raw content) as one string per entry, in LRU order.
+func VerifCacheDump(m Manager) []string {
+	l, ok := m.(*ldbManager)
+	if !ok || l.l1Cache == nil {
+		return nil
+	}
+	out := make([]string, 0)
+	for _, c := range []interface {
+		Keys() []interface{}
+		Peek(interface{}) (interface{}, bool)
+	}{l.l1Cache, l.l2Cache} {
+		for _, k := range c.Keys() {
+			v, ok := c.Peek(k)
+			if !ok {
+				continue
+			}
+			rc := v.(*rollbackCache)
+			s := fmt.Sprintf("%v->%v:", k.(types.HashHeight), rc.frontier)
+			it := rc.raw.NewIterator(nil)
+			for it.Next() {
+				s += hex.EncodeToString(it.Key()) + "=" + hex.EncodeToString(it.Value()) + ","
+			}
+			it.Release()
+			out = append(out, s)
+		}
 	}
 	return out
 }
